@@ -145,6 +145,11 @@ MUTANTS = [
     ('limits', EVALRS, '        self.call_stack.pop();\n', '        self.call_stack.pop();\n        let _unused = 1;\n', 'EQUIVALENT'),
     ('compr', COMPR, '                        // If the condition is always true, skip the clause.\n                        continue;', '                        continue;', 'EQUIVALENT'),
     ('spans', PRD, '                let name = self.parse_assign_ident()?;\n                let ty = self.parse_optional_type()?;\n                let r = self.last_end;\n                Ok(Parameter::KwArgs(name, ty).ast(l, r))', '                let name = self.parse_assign_ident()?;\n                let ty = self.parse_optional_type()?;\n                let end = self.last_end;\n                Ok(Parameter::KwArgs(name, ty).ast(l, end))', 'EQUIVALENT'),
+    ('bind', PSP, '            && args.args().is_none()\n            && args.kwargs().is_none()', '            && args.args().is_none()', 'collect_inline_impl'),
+    ('bind', PSP, '            && args.named().is_empty()\n', '', 'collect_inline_impl'),
+    ('bind', PSP, '        if args.pos().len() == (self.indices.num_positional as usize)\n            && args.pos().len() == self.param_kinds.len()', '        if args.pos().len() <= (self.indices.num_positional as usize)\n            && args.pos().len() == self.param_kinds.len()', 'collect_inline_impl'),
+    ('bind', PSP, '            && args.pos().len() == self.param_kinds.len()\n', '', 'collect_inline_impl'),
+    ('bind', PSP, '            return Ok(());\n        }\n\n        self.collect_slow(args, slots, heap)', '            return self.collect_slow(args, slots, heap);\n        }\n\n        self.collect_slow(args, slots, heap)', 'C08.bind.fast_path'),
     ('calls', INSTR, '        eval.with_call_stack(self.to_value(), Some(location), |eval| {\n            self.invoke(args, eval)\n        })', '        self.invoke(args, eval)', 'bc_invoke'),
     ('calls', 'starlark/src/values/layout/value.rs', '        eval.with_call_stack(self, location, |eval| {\n            self.get_ref_full().invoke(args, eval)\n        })', '        self.get_ref_full().invoke(args, eval)', 'invoke_with_loc'),
     ('strindex', STRT, 'let ind = CharIndex(i.unsigned_abs() as usize);', 'let ind = CharIndex((-i) as usize);', 'at'),
